@@ -134,14 +134,20 @@ fn pick_wm(rng: &mut Rng, i: usize, kv: bool) -> (usize, usize) {
 pub fn minimiser(seed: u64, runs: usize, maxlen: usize, kv: bool) {
     let mut rng = Rng::new(seed);
     for i in 0..runs {
-        let (w, m) = pick_wm(&mut rng, i, kv);
-        let n = match rng.below(8) {
+        let (mut w, m) = pick_wm(&mut rng, i, kv);
+        // one run per trace with a very wide window (ring of several hundred m-mers; the CLI accepts any w)
+        let wide = !kv && i == 7;
+        if wide {
+            w = m + 280 + rng.below(60) as usize;
+        }
+        let n = if wide { w + 150 + rng.below(200) as usize } else { 0 };
+        let n = if wide { n } else { match rng.below(8) {
             0 => rng.below(w as u64 + 2) as usize,
             1 => w.saturating_sub(1),
             2 => w,
             3 => w + 1,
             _ => rng.range(0, maxlen as u64) as usize,
-        };
+        } };
         let mut bytes = gen_seq(&mut rng, n, true);
         // trailing clean segment of length w-1, w or w+1 after an ambiguous byte
         if rng.chance(1, 6) {
